@@ -120,6 +120,7 @@ type inlCand struct {
 	v         *types.Var
 	decl      *ast.AssignStmt
 	blankUses int
+	aliased   bool // still the source of an alias definition: its calls are not all visible yet
 	// properties
 	hasDefer, hasRecover bool
 	callsCand            map[*types.Func]bool
@@ -135,6 +136,8 @@ type inliner struct {
 	// per call: imports of the callee whose name is shadowed at the call site -> alias under which the caller's
 	// file imports the package again
 	alias map[*types.PkgName]string
+	// per call of a generic helper: type parameter -> the type argument as written at the call site's file
+	typeSubst map[*types.TypeParam]string
 }
 
 func (in *inliner) src(file string) []byte {
@@ -162,12 +165,21 @@ func (in *inliner) nodeText(n ast.Node) string {
 
 // aliasEdits: edits that rewrite, inside [from,to), the uses of imports that are shadowed at the call site.
 func (in *inliner) aliasEdits(c *inlCand, root ast.Node) []textEdit {
-	if len(in.alias) == 0 || root == nil {
+	if (len(in.alias) == 0 && len(in.typeSubst) == 0) || root == nil {
 		return nil
 	}
 	var es []textEdit
 	ast.Inspect(root, func(n ast.Node) bool {
 		if idn, ok := n.(*ast.Ident); ok {
+			if tn, ok := c.pkg.TypesInfo.Uses[idn].(*types.TypeName); ok {
+				if tp, ok := tn.Type().(*types.TypeParam); ok {
+					if txt, ok := in.typeSubst[tp]; ok {
+						_, x := in.rawOff(idn.Pos())
+						_, y := in.rawOff(idn.End())
+						es = append(es, textEdit{x, y, txt})
+					}
+				}
+			}
 			if pn, ok := c.pkg.TypesInfo.Uses[idn].(*types.PkgName); ok {
 				if a, ok := in.alias[pn]; ok {
 					_, x := in.rawOff(idn.Pos())
@@ -247,11 +259,8 @@ func (in *inliner) candidates() map[*types.Func]*inlCand {
 					continue
 				}
 				sig := obj.Type().(*types.Signature)
-				if sig.TypeParams() != nil || sig.RecvTypeParams() != nil {
-					continue
-				}
-				if fd.Type.TypeParams != nil {
-					continue
+				if sig.RecvTypeParams() != nil {
+					continue // methods of generic types
 				}
 				out[obj] = &inlCand{obj: obj, sig: sig, fd: fd, pkg: p, file: file, callsCand: map[*types.Func]bool{}}
 			}
@@ -375,6 +384,11 @@ func (in *inliner) closureCandidates() map[*types.Var]*inlCand {
 							continue
 						}
 					}
+					if isAliasDefOf(parent[id], id) {
+						out[v].blankUses++ // `g := f` / `var g T = f`: g's calls are rewritten to f first (funcAliases)
+						out[v].aliased = true
+						continue
+					}
 					if parent[id] != nil { // an identifier of this file
 						delete(out, v)
 					}
@@ -388,6 +402,229 @@ func (in *inliner) closureCandidates() map[*types.Var]*inlCand {
 		}
 	}
 	return out
+}
+
+// isAliasDefOf: n is `g := id` or `var g T = id` (one name, one value).
+func isAliasDefOf(n ast.Node, id *ast.Ident) bool {
+	switch x := n.(type) {
+	case *ast.AssignStmt:
+		if x.Tok == token.DEFINE && len(x.Lhs) == 1 && len(x.Rhs) == 1 && x.Rhs[0] == ast.Expr(id) {
+			_, ok := x.Lhs[0].(*ast.Ident)
+			return ok
+		}
+	case *ast.ValueSpec:
+		return len(x.Names) == 1 && len(x.Values) == 1 && x.Values[0] == ast.Expr(id)
+	}
+	return false
+}
+
+// funcAliases: a local variable of function type that is defined once as another name for a package-level function
+// of the same package or for another local function variable (`pred := isRequired`, `var pred func(T) bool = _a0` -
+// what binding a function-typed parameter of an inlined helper leaves behind), never reassigned and only called, is
+// not needed: its calls are rewritten to call the target directly. Returns the edits of one round.
+func (in *inliner) funcAliases(edits map[string][]textEdit, busy map[string][][2]int) bool {
+	changed := false
+	for _, p := range in.w.Pkgs {
+		info := p.TypesInfo
+		for _, file := range p.Syntax {
+			fname, _ := in.rawOff(file.Pos())
+			parent := map[ast.Node]ast.Node{}
+			var stack []ast.Node
+			ast.Inspect(file, func(n ast.Node) bool {
+				if n == nil {
+					stack = stack[:len(stack)-1]
+					return true
+				}
+				if len(stack) > 0 {
+					parent[n] = stack[len(stack)-1]
+				}
+				stack = append(stack, n)
+				return true
+			})
+			type alias struct {
+				v      *types.Var
+				target types.Object
+				name   string
+				def    ast.Node
+				calls  []*ast.Ident
+				blank  bool
+				bad    bool
+			}
+			als := map[*types.Var]*alias{}
+			ast.Inspect(file, func(n ast.Node) bool {
+				var lhs *ast.Ident
+				var rhs ast.Expr
+				switch x := n.(type) {
+				case *ast.AssignStmt:
+					if x.Tok == token.DEFINE && len(x.Lhs) == 1 && len(x.Rhs) == 1 {
+						lhs, _ = x.Lhs[0].(*ast.Ident)
+						rhs = x.Rhs[0]
+					}
+				case *ast.ValueSpec:
+					if len(x.Names) == 1 && len(x.Values) == 1 {
+						lhs, rhs = x.Names[0], x.Values[0]
+					}
+				}
+				if lhs == nil || lhs.Name == "_" {
+					return true
+				}
+				v, ok := info.Defs[lhs].(*types.Var)
+				if !ok || v.Parent() == p.Types.Scope() || v.IsField() {
+					return true
+				}
+				if _, isSig := v.Type().Underlying().(*types.Signature); !isSig {
+					return true
+				}
+				rid, ok := ast.Unparen(rhs).(*ast.Ident)
+				if !ok {
+					return true
+				}
+				switch t := info.Uses[rid].(type) {
+				case *types.Func:
+					if t.Pkg() != p.Types || t.Type().(*types.Signature).Recv() != nil || t.Type().(*types.Signature).TypeParams() != nil {
+						return true
+					}
+					als[v] = &alias{v: v, target: t, name: rid.Name, def: n}
+				case *types.Var:
+					if t.Parent() == p.Types.Scope() || t.IsField() {
+						return true
+					}
+					als[v] = &alias{v: v, target: t, name: rid.Name, def: n}
+				}
+				return true
+			})
+			if len(als) == 0 {
+				continue
+			}
+			// the target variable must itself never be reassigned
+			assigned := map[types.Object]bool{}
+			ast.Inspect(file, func(n ast.Node) bool {
+				switch x := n.(type) {
+				case *ast.AssignStmt:
+					if x.Tok != token.DEFINE {
+						for _, l := range x.Lhs {
+							if id, ok := l.(*ast.Ident); ok {
+								if o := info.Uses[id]; o != nil {
+									assigned[o] = true
+								}
+							}
+						}
+					}
+				case *ast.UnaryExpr:
+					if x.Op == token.AND {
+						if id, ok := x.X.(*ast.Ident); ok {
+							if o := info.Uses[id]; o != nil {
+								assigned[o] = true
+							}
+						}
+					}
+				case *ast.IncDecStmt:
+				}
+				return true
+			})
+			for id, o := range info.Uses {
+				v, ok := o.(*types.Var)
+				if !ok || als[v] == nil {
+					continue
+				}
+				if parent[id] == nil {
+					continue
+				}
+				a := als[v]
+				switch pn := parent[id].(type) {
+				case *ast.CallExpr:
+					if pn.Fun == ast.Expr(id) {
+						switch parent[pn].(type) {
+						case *ast.GoStmt, *ast.DeferStmt:
+							a.bad = true
+						default:
+							a.calls = append(a.calls, id)
+						}
+						continue
+					}
+					a.bad = true
+				case *ast.AssignStmt:
+					if pn.Tok == token.ASSIGN && len(pn.Lhs) == 1 && len(pn.Rhs) == 1 && pn.Rhs[0] == ast.Expr(id) {
+						if l, ok := pn.Lhs[0].(*ast.Ident); ok && l.Name == "_" {
+							a.blank = true
+							continue
+						}
+					}
+					if isAliasDefOf(pn, id) {
+						continue
+					}
+					a.bad = true
+				case *ast.ValueSpec:
+					if isAliasDefOf(pn, id) {
+						continue
+					}
+					a.bad = true
+				default:
+					a.bad = true
+				}
+			}
+			for v, a := range als {
+				if a.bad || assigned[v] || assigned[a.target] || len(a.calls) == 0 {
+					continue
+				}
+				scope := p.Types.Scope().Innermost(a.calls[0].Pos())
+				okAll := scope != nil
+				for _, c := range a.calls {
+					sc := p.Types.Scope().Innermost(c.Pos())
+					if sc == nil {
+						okAll = false
+						break
+					}
+					if _, at := sc.LookupParent(a.name, c.Pos()); at != a.target {
+						okAll = false
+					}
+				}
+				if !okAll {
+					continue
+				}
+				overlap := false
+				for _, c := range a.calls {
+					_, x := in.rawOff(c.Pos())
+					for _, b := range busy[fname] {
+						if x >= b[0] && x < b[1] {
+							overlap = true
+						}
+					}
+				}
+				if overlap {
+					continue
+				}
+				for _, c := range a.calls {
+					_, x := in.rawOff(c.Pos())
+					_, y := in.rawOff(c.End())
+					text := a.name
+					if len(text) != y-x {
+						text += in.dir(c.End())
+					}
+					edits[fname] = append(edits[fname], textEdit{x, y, text})
+				}
+				if !a.blank {
+					var end token.Pos
+					switch d := a.def.(type) {
+					case *ast.AssignStmt:
+						end = d.End()
+					case *ast.ValueSpec:
+						if gd, ok := parent[d].(*ast.GenDecl); ok && !gd.Lparen.IsValid() {
+							end = gd.End()
+						}
+					}
+					if end.IsValid() {
+						_, e := in.rawOff(end)
+						edits[fname] = append(edits[fname], textEdit{e, e, "; _ = " + v.Name()})
+					} else {
+						continue
+					}
+				}
+				changed = true
+			}
+		}
+	}
+	return changed
 }
 
 // inCycle: c reaches itself through candidate calls.
@@ -566,7 +803,7 @@ func (in *inliner) round() (map[string][]textEdit, bool) {
 	}
 	for v, c := range clos {
 		key := "closure " + v.Name() + "@" + in.w.Pos(c.decl.Pos())
-		if closUses[v]-c.blankUses == 0 && in.inlined[key] > 0 {
+		if closUses[v]-c.blankUses == 0 && in.inlined[key] > 0 && !c.aliased {
 			file, a := in.rawOff(c.decl.Pos())
 			_, b := in.rawOff(c.decl.End())
 			src := in.src(file)
@@ -861,6 +1098,61 @@ func isStmtList(parent ast.Node, s ast.Stmt) bool {
 // why != "" means the call is left alone.
 func (in *inliner) inlineCall(p *packages.Package, file *ast.File, stack []ast.Node, call *ast.CallExpr, c *inlCand, imports map[string]map[string]string) (textEdit, ast.Stmt, string) {
 	info := p.TypesInfo
+	in.typeSubst = nil
+	if c.sig != nil && c.sig.TypeParams() != nil {
+		// a generic helper: work with the instance the call site uses, its type parameters written out
+		var id *ast.Ident
+		switch fx := call.Fun.(type) {
+		case *ast.Ident:
+			id = fx
+		case *ast.IndexExpr:
+			id, _ = fx.X.(*ast.Ident)
+		case *ast.IndexListExpr:
+			id, _ = fx.X.(*ast.Ident)
+		}
+		inst, ok := info.Instances[id]
+		if id == nil || !ok || inst.TypeArgs == nil || inst.TypeArgs.Len() != c.sig.TypeParams().Len() {
+			return textEdit{}, nil, "generic helper whose instantiation is not known at the call site"
+		}
+		isig, ok := inst.Type.(*types.Signature)
+		if !ok {
+			return textEdit{}, nil, "generic helper whose instantiation is not known at the call site"
+		}
+		bad := false
+		qual := func(pk *types.Package) string {
+			if pk == p.Types {
+				return ""
+			}
+			for _, im := range file.Imports {
+				if strings.Trim(im.Path.Value, `"`) == pk.Path() {
+					if im.Name != nil {
+						if im.Name.Name == "_" || im.Name.Name == "." {
+							bad = true
+						}
+						return im.Name.Name
+					}
+					return pk.Name()
+				}
+			}
+			bad = true
+			return pk.Name()
+		}
+		in.typeSubst = map[*types.TypeParam]string{}
+		for i := 0; i < c.sig.TypeParams().Len(); i++ {
+			in.typeSubst[c.sig.TypeParams().At(i)] = types.TypeString(inst.TypeArgs.At(i), qual)
+		}
+		if bad {
+			in.typeSubst = nil
+			return textEdit{}, nil, "a type argument of the generic helper needs a package the calling file does not import"
+		}
+		c2 := *c
+		c2.sig = isig
+		c = &c2
+		if call.Fun != ast.Expr(id) {
+			// explicit instantiation f[T](…): the statement forms look at call.Fun as an identifier
+			return textEdit{}, nil, "explicitly instantiated call of a generic helper"
+		}
+	}
 	stmt, parent, between := enclosingStmt(stack)
 	if stmt == nil {
 		return textEdit{}, nil, "the call is not inside a statement"
@@ -2345,7 +2637,12 @@ func (in *inliner) captureCheck(p *packages.Package, callerFile *ast.File, call 
 	if c.fd.Recv != nil {
 		check(c.fd.Recv)
 	}
-	check(c.fd.Type)
+	if c.fd.Type.Params != nil {
+		check(c.fd.Type.Params)
+	}
+	if c.fd.Type.Results != nil {
+		check(c.fd.Type.Results)
+	}
 	return why
 }
 
